@@ -59,3 +59,76 @@ Definition r2_statement_wf (recs : list (list str)) : bool :=
 
 Definition r2_statement_output (acct feeacct : account) (recs : list (list str)) : option str :=
   if r2_statement_wf recs then Some (print_directives (r2s_directives acct feeacct (tl recs))) else None.
+
+(* ---------------------------------------------------------------- revolut (older export) *)
+(* the currency of the statement: the third field of the header is "Paid Out (CUR)", CUR letters *)
+Definition rvs_paid_out : str := [80;97;105;100;32;79;117;116;32;40]%Z.   (* "Paid Out (" *)
+Definition rvs_currency (header : list str) : option commodity :=
+  let f := field header 2 in
+  if is_prefix rvs_paid_out f then
+    let '(cur, rest) := span is_alpha (skipn (length rvs_paid_out) f) in
+    if negb (is_empty cur) && str_eqb rest [41%Z] then Some cur else None
+  else None.
+(* 1 January of year 1: Go's zero time, "no row yet" *)
+Definition rvs_zero_day : Z := of_civil 1 1 1.
+
+(* the transaction of each row, preceded by the assertion of the row's Balance where the date changes *)
+Fixpoint rvs_weave (acct : account) (cur : commodity) (prev : Z) (rows : list (list str)) : list directive :=
+  match rows with
+  | [] => []
+  | r :: rows' =>
+    (if Z.eqb (rv_date r) prev then [] else [assertion_of acct (mkBalFact (rv_date r) cur (rv_balance r))]) ++
+    booking_directive (rv_fact cur r) (rv_text r) (rv_legs acct cur r) None :: rvs_weave acct cur (rv_date r) rows'
+  end.
+
+(* a statement: a header of nine fields that names the currency, then well-formed rows *)
+Definition rv_statement_wf (recs : list (list str)) : bool :=
+  match recs with
+  | h :: rows => len_is h 9 && is_some (rvs_currency h) && forallb rv_wf_row rows
+  | [] => false
+  end.
+Definition rv_statement_output (acct : account) (recs : list (list str)) : option str :=
+  if rv_statement_wf recs then
+    match recs with
+    | h :: rows => match rvs_currency h with
+                   | Some cur => Some (print_directives (rvs_weave acct cur rvs_zero_day rows))
+                   | None => None
+                   end
+    | [] => None
+    end
+  else None.
+
+(* ---------------------------------------------------------------- com.wise *)
+Definition wss_header : list str :=
+  [[73;68]; [83;116;97;116;117;115]; [68;105;114;101;99;116;105;111;110]; [67;114;101;97;116;101;100;32;111;110];
+   [70;105;110;105;115;104;101;100;32;111;110]; [83;111;117;114;99;101;32;102;101;101;32;97;109;111;117;110;116];
+   [83;111;117;114;99;101;32;102;101;101;32;99;117;114;114;101;110;99;121]; [84;97;114;103;101;116;32;102;101;101;32;97;109;111;117;110;116];
+   [84;97;114;103;101;116;32;102;101;101;32;99;117;114;114;101;110;99;121]; [83;111;117;114;99;101;32;110;97;109;101];
+   [83;111;117;114;99;101;32;97;109;111;117;110;116;32;40;97;102;116;101;114;32;102;101;101;115;41];
+   [83;111;117;114;99;101;32;99;117;114;114;101;110;99;121]; [84;97;114;103;101;116;32;110;97;109;101];
+   [84;97;114;103;101;116;32;97;109;111;117;110;116;32;40;97;102;116;101;114;32;102;101;101;115;41];
+   [84;97;114;103;101;116;32;99;117;114;114;101;110;99;121]; [69;120;99;104;97;110;103;101;32;114;97;116;101];
+   [82;101;102;101;114;101;110;99;101]; [66;97;116;99;104]]%Z.
+
+(* the header record, then well-formed rows; one transaction per entry of each row (ws_entries) *)
+Definition ws_statement_wf (recs : list (list str)) : bool :=
+  match recs with
+  | h :: rows => rec_eqb h wss_header && forallb ws_wf_row rows
+  | [] => false
+  end.
+Definition ws_directives (repaired : bool) (acct feeacct trading : account) (rows : list (list str)) : list directive :=
+  map (fun e => booking_directive (en_fact e) (en_text e) (en_legs e) None)
+      (flat_map (ws_entries repaired acct feeacct trading) rows).
+Definition ws_statement_output (repaired : bool) (acct feeacct trading : account) (recs : list (list str)) : option str :=
+  if ws_statement_wf recs then Some (print_directives (ws_directives repaired acct feeacct trading (tl recs))) else None.
+
+(* ---------------------------------------------------------------- ch.swissquote *)
+(* a header record (not looked at), then a well-formed sequence of rows (sqs_wf: exchange rows in
+   pairs); one transaction per entry (sqs_entries) *)
+Definition sqs_statement_wf (recs : list (list str)) : bool :=
+  match recs with _ :: rows => sqs_wf false rows | [] => false end.
+Definition sqs_directives (acct dividend interest tax fee trading : account) (rows : list (list str)) : list directive :=
+  map (fun e : tentry => booking_directive (en_fact (fst e)) (en_text (fst e)) (en_legs (fst e)) (snd e))
+      (sqs_entries acct dividend interest tax fee trading None rows).
+Definition sqs_statement_output (acct dividend interest tax fee trading : account) (recs : list (list str)) : option str :=
+  if sqs_statement_wf recs then Some (print_directives (sqs_directives acct dividend interest tax fee trading (tl recs))) else None.
